@@ -68,6 +68,8 @@ func checkC13(c *Ctx) {
 		ea := newErrAnalysis(c, l)
 		ea.runErrorInvalidates("ERR-decode-invalidates", nil)
 	}
+	c.rule("OWN-resolve-inputs", "node / root lookups depend on the key and the stored bytes only", 4)
+	checkResolveInputs(c, "OWN-resolve-inputs")
 	c.rule("FORMAT-narrowing", "a decoded integer stored into a narrower field is accepted exactly over that field's range (the range the encoder emits)", 3)
 	checkNarrowing(c)
 	checkFormatX(c, l, "FORMAT-primitives", "encoding.EncodeBytes", l.Func("internal/encoding", "EncodeBytes"), false, true, []string{"U(len(arg1)) W(arg1)"})
@@ -435,5 +437,50 @@ func stripTrivialKeepConv(v ssa.Value) ssa.Value {
 		default:
 			return v
 		}
+	}
+}
+
+// checkResolveInputs (shared by C13 and C16): which stored entry a node key /
+// root key resolves to is a function of the key and of the stored bytes only.
+// GetNode and GetRoot (and the decoders) read none of nodeDB's cached version
+// counters: those are 0 until something asks for them after an open, and they
+// move with pruning — a lookup that depends on them finds a re-keyed (v,0)
+// root in one process state and misses it in another.
+func checkResolveInputs(c *Ctx, rule string) {
+	l := c.L
+	ndbT := l.NamedType("", "nodeDB")
+	if ndbT == nil {
+		c.anchorMissing(rule, "nodeDB")
+		return
+	}
+	counters := map[string]bool{"firstVersion": true, "latestVersion": true, "legacyLatestVersion": true}
+	for _, name := range []string{"*nodeDB.GetNode", "*nodeDB.GetRoot", "MakeNode", "MakeLegacyNode"} {
+		fn := l.Func("", name)
+		if fn == nil {
+			c.anchorMissing(rule, name)
+			continue
+		}
+		var at ssa.Instruction
+		what := ""
+		for _, f := range allUnder(fn) {
+			allInstrs(f, func(in ssa.Instruction) {
+				fa, ok := in.(*ssa.FieldAddr)
+				if !ok {
+					return
+				}
+				n := derefNamed(fa.X.Type())
+				if n == nil || n.Obj() != ndbT.Obj() {
+					return
+				}
+				if fname := fieldName(fa.X.Type(), fa.Field); counters[fname] && at == nil {
+					at, what = in, fname
+				}
+			})
+		}
+		pos := l.pos(fn.Pos())
+		if at != nil {
+			pos = l.ipos(at)
+		}
+		c.decide(rule, name+" resolves from the key and the stored bytes only", pos, at == nil, "reads no cached version counter", "the lookup reads nodeDB."+what+": the same stored database resolves differently depending on whether / how far the counter has been initialised or moved by pruning in this process")
 	}
 }
